@@ -926,6 +926,20 @@ zPresetMap(
 	j = k;
     }
     
+    /* The loop below finds a relaxed supernode only where a supernode of H
+       starts.  The partition of H need not have a boundary there (in
+       symmetric mode consecutive isolated columns form one supernode of
+       the Cholesky factor), so split H at every relaxed supernode. */
+    for (rs = 1; rs <= pxgstrf_relax[0].size; ++rs) {
+	i = pxgstrf_relax[rs].fcol;
+	if ( i < n && super_bnd[i] == 0 ) {
+	    for (j = i - 1; super_bnd[j] == 0; --j) ;
+	    super_bnd[i] = j + super_bnd[j] - i;
+	    super_bnd[j] = i - j;
+	}
+    }
+    rs = 1;
+
     for (j = 0; j < n; j += w) {
         if ( Glu->dynamic_snode_bound == NO ) map_in_sup[j] = nextpos;
 
